@@ -34,6 +34,13 @@ expected), zero and NaN (harness.c01.x_inputs), plus tails (tail_inputs below): 
 LogSinh's w, Logit next to its guard), with the stencil step scaled to x; histories of parameter changes for the delegating classes (the
 inner BoxCox2 is stale at the start of every call); dense sweeps of lam through the branch switches; for
 Softmax, 2-D arrays of 1..4 rows x 1..7 columns incl. rejected ones.
+History streams (every answer compared with the model at the object's CURRENT state, some judged by the oracle): on one
+object and one input size, call -> (overwrite the returned array | edit the input array in place | equal-size
+re-assignment through attribute / item / bulk `params.values` | reset() | rebuild a twin from constructor options +
+values and re-assign the original | forward then jacobian | same call again) -> call again, 3-4 steps; Softmax the
+same on one array object; `forward` is compared as well (the theorems differentiate the model's forward). Glue stream
+(`dutils.cast`): 2-D float64 input keeps its shape, python float gives the float, int64 / float32 arrays are rejected
+(TypeError) or answered with exactly the float64 values; Softmax arrays of 3 / 4 dimensions are rejected (ndimGt2).
 A case (one element of one call) is non-trivial when the reply is a finite number.
 """
 import json
@@ -52,6 +59,7 @@ K = 8.0              # safety factor on the evaluation-error bounds
 LADDER = (16, 13, 10, 8, 6, 4)      # h = 2^floor(log2 L) / 2^j, smallest step first
 MS = (-2.0, -1.0, 1.0, 2.0)
 fin = G.fin
+SM_ERR = [("Expected ndim", "ndimGt2")] + list(G.ERRMAP)
 STATEFUL = G.STATEFUL
 BOXCOX = ("BoxCox2", "BoxCox1lam", "BoxCox1nu")
 
@@ -480,26 +488,192 @@ def body(ctx):
                             {**case0, "x": x, "h": h, "forward_at_stencil": f4})
 
     # ------------------------------------------------------------------ one object: correspondence + oracle
-    def exercise(o, nin, note=""):
+    def compared(o, op, arr, note=""):
+        """one call of a public method on the real object, with the same request queued for the model (evaluated on
+        the object's CURRENT parameters and the model's inner state left by the previous calls).
+        Returns (status, the object the real code returned)"""
         cls = o.cls
-        P = o.P()
-        xs = G.x_inputs(cls, P, rng, nin) + tail_inputs(cls, P, rng, max(12, nin // 3))
+        a = arr if isinstance(arr, np.ndarray) else np.array(list(arr), dtype=np.float64)
+        xs = [float(v) for v in a.ravel()]
         mp = o.mparams()
-        status, payload = o.call("jac", xs)
-        line = f"jac {cls} {C.flist(mp)} {C.flist(xs)}"
+        try:
+            with np.errstate(all="ignore"):
+                r = o.t.jacobian(a) if op == "jac" else o.t.forward(a)
+            status, payload = "ok", np.array(r, dtype=np.float64)        # a private copy: the caller may edit `r`
+            if payload.shape != a.shape:
+                ctx.disagree(f"{cls}.{op}: the result does not have the shape of the input",
+                             {"class": cls, "op": op, "input_shape": list(a.shape), "result_shape": list(payload.shape)})
+        except ValueError as e:
+            r = None
+            status, payload = "err", next((v for k, v in G.ERRMAP if k in str(e)), "other:" + str(e)[:60])
+        except Exception as e:  # noqa
+            r = None
+            status, payload = "err", "exc:" + type(e).__name__ + ":" + str(e)[:60]
         o.after_call(status)
-        case = {"class": cls, "ctor": o.ctor, "params": o.P(), "op": "jac", "inputs": [float(v) for v in xs], "note": note}
+        case = {"class": cls, "ctor": o.ctor, "params": o.P(), "op": op, "inputs": xs, "note": note}
         if status == "err" and all(v is not None for v in o.requested.values()):
-            ctx.finding(f"{cls}/jac/raises_on_valid_setting",
-                        "jacobian on a transform whose parameters and constants were all set raises " + str(payload),
+            ctx.finding(f"{cls}/{op}/raises_on_valid_setting",
+                        f"{op} on a transform whose parameters and constants were all set raises " + str(payload),
                         {"class": cls, "ctor": dict(o.ctor), "requested": dict(o.requested), "actual": o.P(),
                          "via_get_transform": o.via_get, "error": payload})
-        reqs.append(line)
+        reqs.append(f"{op} {cls} {C.flist(mp)} {C.flist(xs)}")
         checks.append((status, payload, case, list(o.bc) if cls in STATEFUL else None))
+        return status, r
+
+    def exercise(o, nin, note="", xs=None):
+        cls = o.cls
+        P = o.P()
+        if xs is None:
+            xs = G.x_inputs(cls, P, rng, nin) + tail_inputs(cls, P, rng, max(12, nin // 3))
+        first = rng.random() < 0.5          # which public method touches the object first after a (re)setting
+        if first:
+            compared(o, "fwd", xs, note)
+        status, r = compared(o, "jac", xs, note)
+        if not first:
+            compared(o, "fwd", xs, note)
         if status == "ok":
-            jv = [float(v) for v in np.asarray(payload, dtype=np.float64).ravel()]
+            jv = [float(v) for v in np.asarray(r, dtype=np.float64).ravel()]
             if len(jv) == len(xs):
                 oracle(o, xs, jv, note)
+
+    def reassign(o):
+        """equal-size re-assignment of parameters / constants of a live object, through one of the three public ways"""
+        cls = o.cls
+        if cls == "Identity":
+            return "none"
+        cand = [pp for _, pp in G.configs(cls, rng, 8) if all(v is not None for v in pp.values())]
+        newp = rng.choice(cand)
+        keys = [k for k in newp if rng.random() < 0.6] or [rng.choice(list(newp))]
+        how = rng.choice(["attr", "item", "bulk"])
+        if how == "attr":
+            o.setp(**{k: newp[k] for k in keys})
+        elif how == "item":
+            for k in keys:
+                o.t[k] = newp[k]
+                o.requested[k] = newp[k]
+        else:
+            names = list(o.t.params.names)
+            cur = [float(v) for v in o.t.params.values]
+            o.t.params.values = [newp.get(nm, cv) if nm in keys else cv for nm, cv in zip(names, cur)]
+            for nm in names:
+                if nm in keys and nm in newp:
+                    o.requested[nm] = newp[nm]
+        if cls == "BoxCox2sym":
+            p = o.P()
+            if p["nu"] < 0 or (p["nu"] == 0 and not p["lam"] > EPS):
+                o.setp(nu=0.3)
+        return how
+
+    def history(o, nsteps, nin=10):
+        """a short history on ONE object and ONE input size: every answer is compared with the model (whose inner
+        state is whatever the previous calls left) and, for some steps, judged by the oracle on the current state"""
+        cls = o.cls
+        P = o.P()
+        xs = [v for v in G.x_inputs(cls, P, rng, nin) + tail_inputs(cls, P, rng, 12)][: nin + 6]
+        a = np.array(xs, dtype=np.float64)
+        for k in range(nsteps):
+            step = rng.choice(["edit_output", "edit_input", "reassign", "reassign", "reset", "rebuild", "fwd_then_jac", "again"])
+            note = f"history step {k + 1}: {step}"
+            ctx.count(("hist", cls, step, k, ctx.evaluations), True, f"history/{cls}/{step}")
+            if step == "edit_output":
+                st, r = compared(o, rng.choice(["jac", "fwd"]), a, note)
+                if st == "ok" and isinstance(r, np.ndarray) and r.ndim > 0 and r.flags.writeable:
+                    r[...] = -7.0                     # the caller scribbles over the returned array
+                compared(o, "jac", a, note + " (after the returned array was overwritten)")
+                compared(o, "fwd", a, note + " (after the returned array was overwritten)")
+            elif step == "edit_input":
+                st, r = compared(o, "jac", a, note)
+                keep = None if r is None else np.array(r, dtype=np.float64)
+                fresh = G.x_inputs(cls, o.P(), rng, len(a) + 8)
+                fresh = [v for v in fresh if v == v][: len(a)]
+                if len(fresh) == len(a):
+                    a[...] = fresh                    # same array object, same size, new content
+                st2, r2 = compared(o, "jac", a, note + " (input array edited in place)")
+                if keep is not None and isinstance(r, np.ndarray) and r.ndim > 0:
+                    same = np.array_equal(np.asarray(r, dtype=np.float64), keep, equal_nan=True)
+                    if not same:
+                        ctx.disagree(f"{cls}.jacobian: an array returned earlier changed when the input array was edited "
+                                     f"in place and the method called again", {"class": cls, "params": o.P()})
+            elif step == "reassign":
+                how = reassign(o)
+                if rng.random() < 0.5:
+                    exercise(o, nin, note + f" via {how}", xs=[float(v) for v in a])
+                else:
+                    compared(o, "jac", a, note + f" via {how}")
+            elif step == "reset":
+                o.t.reset()
+                for nm, v in zip(o.t.params.names, o.t.params.values):
+                    o.requested[nm] = float(v)
+                compared(o, "jac", a, note)
+            elif step == "rebuild":
+                # a second object built from the constructor options and the current values (the only way to clone a
+                # transform: copy.deepcopy / pickle of a Transform raise inside Vector on the pinned tree)
+                cur = {nm: float(v) for nm, v in zip(o.t.params.names, o.t.params.values)}
+                cur.update({nm: (None if v != v else float(v)) for nm, v in zip(o.t.constants.names, o.t.constants.values)})
+                o2 = G.Obj(T, cls, o.ctor, cur, via_get=rng.random() < 0.5)
+                st1, r1 = compared(o, "jac", a, note + " (original)")
+                st2, r2 = compared(o2, "jac", a, note + " (rebuilt twin)")
+                if st1 == "ok" and st2 == "ok" and not np.array_equal(np.asarray(r1), np.asarray(r2), equal_nan=True):
+                    ctx.disagree(f"{cls}.jacobian: an object rebuilt from the same constructor options and parameter values "
+                                 f"answers differently from the original", {"class": cls, "params": o.P(), "twin": o2.P()})
+                reassign(o)                          # the twin must not follow the original
+                compared(o2, "jac", a, note + " (twin, after the original was re-assigned)")
+                compared(o, "jac", a, note + " (original, re-assigned)")
+            elif step == "fwd_then_jac":
+                zs = G.x_inputs(cls, o.P(), rng, 6)
+                compared(o, "fwd", zs, note)
+                compared(o, "jac", a, note)
+            else:
+                compared(o, "jac", a, note)
+                compared(o, "jac", a, note)
+
+    def glue(o):
+        """shape / type handling of the public method (`dutils.cast`): 2-D float64 arrays keep their shape and hold the
+        elementwise values; a python float gives the scalar value; integer and float32 arrays are either rejected
+        (TypeError: unsafe cast) or answered with exactly the float64 values - never silently truncated"""
+        cls = o.cls
+        P = o.P()
+        xs = [v for v in G.x_inputs(cls, P, rng, 12) if v == v][:6]
+        if len(xs) == 6:
+            compared(o, "jac", np.array(xs, dtype=np.float64).reshape(2, 3), "glue: 2-D input")
+            compared(o, "fwd", np.array(xs, dtype=np.float64).reshape(3, 2), "glue: 2-D input")
+        good = [x for x in xs if jac_domain(cls, P, x) is not None]
+        if good and cls not in G.NOCENS:
+            x0 = float(good[0])
+            try:
+                with np.errstate(all="ignore"):
+                    rs = o.t.jacobian(x0)
+                    ra = o.t.jacobian(np.array([x0]))
+                o.after_call("ok")
+                ctx.count(("glue", cls, "scalar", C.f2h(x0)), True, f"glue/{cls}/python-float")
+                av = np.asarray(ra, dtype=np.float64).ravel()
+                if not (isinstance(rs, float) and np.ndim(ra) == 1 and av.size == 1 and C.f2h(rs) == C.f2h(float(av[0]))):
+                    ctx.disagree(f"{cls}.jacobian(python float) is not the float holding the value of the 1-element array call",
+                                 {"class": cls, "params": P, "x": x0, "scalar": repr(rs), "array": repr(ra)})
+            except ValueError:
+                pass
+        ints = [float(v) for v in (1, 2, 3, 7)]
+        if all(jac_domain(cls, P, v) is not None for v in ints):
+            ref_st, ref = o.call("jac", ints)
+            o.after_call(ref_st)
+            for dt in (np.int64, np.float32):
+                try:
+                    with np.errstate(all="ignore"):
+                        r = o.t.jacobian(np.array(ints, dtype=dt))
+                    o.after_call("ok")
+                    tag = "answered"
+                    if ref_st == "ok" and not np.array_equal(np.asarray(r, dtype=np.float64), np.asarray(ref), equal_nan=True):
+                        ctx.finding(f"{cls}/glue/narrow_dtype_truncated",
+                                    f"{cls}.jacobian on an integer / float32 array returns values that differ from the "
+                                    f"float64 Jacobian (silently truncated to the input dtype)",
+                                    {"class": cls, "params": P, "dtype": np.dtype(dt).name, "got": [float(v) for v in r],
+                                     "float64": [float(v) for v in ref]})
+                except TypeError:
+                    tag = "TypeError"
+                except ValueError:
+                    tag = "ValueError"
+                ctx.count(("glue", cls, np.dtype(dt).name, json.dumps(P, sort_keys=True, default=str)), tag == "answered",
+                          f"glue/{cls}/{np.dtype(dt).name}/{tag}")
 
     # ---------------- corpus (C02's own and the parameter vectors of C01's)
     for cdir in (C.ROOT / "corpus" / PID, C.ROOT / "corpus" / "C01"):
@@ -544,6 +718,10 @@ def body(ctx):
                     else:
                         o.setp(xmax=10 ** rng.uniform(-2, 3), lam=rng.choice([0.0, 1e-10, 0.5, -2.0, 1e-3]))
                     exercise(o, max(12, nin // 3), note=f"history step {step + 1}")
+            if cls != "Identity" and (cls in STATEFUL or i % 3 == 0):
+                history(o, ctx.scale(3, 4))
+            if i % 10 == 0:
+                glue(o)
 
     # ---------------- dense sweeps of lam through the branch switches of the Jacobian formulas
     nsw = ctx.scale(40, 400)
@@ -595,6 +773,40 @@ def body(ctx):
             status, payload = "err", next((v for k, v in G.ERRMAP if k in str(e)), "other:" + str(e)[:40])
         reqs.append(f"jac Softmax [] {C.fmat(rows)}")
         checks.append((status, payload, {"class": "Softmax", "op": "jac", "rows": rows, "kind": kind}, None))
+
+        def sm_call(op, a, nd="[]", kind_=kind):
+            """Softmax method on array `a` (its 2-D rows are what the model gets), queued for the model"""
+            try:
+                with np.errstate(all="ignore"):
+                    rr = sm.jacobian(a) if op == "jac" else sm.forward(a)
+                st_, pl_ = "ok", np.array(rr, dtype=np.float64)
+            except ValueError as e_:
+                rr = None
+                st_, pl_ = "err", next((v for k_, v in SM_ERR if k_ in str(e_)), "other:" + str(e_)[:40])
+            rws = [[float(v) for v in r_] for r_ in a.reshape(-1, a.shape[-1])]
+            reqs.append(f"{op} Softmax {nd} {C.fmat(rws)}")
+            checks.append((st_, pl_, {"class": "Softmax", "op": op, "rows": rws, "kind": kind_}, None))
+            return st_, rr
+        sm_call("fwd", arr)
+        if it % 7 == 0:
+            # history on one array object: scribble over the result, edit the input in place (same shape), call again
+            work = arr.copy()
+            st_a, ra = sm_call("jac", work, kind_="history")
+            if st_a == "ok":
+                ra[...] = -3.0
+                st_f, rf = sm_call("fwd", work, kind_="history: after the returned array was overwritten")
+                if st_f == "ok":
+                    rf[...] = 0.0
+                sm_call("jac", work, kind_="history: after both returned arrays were overwritten")
+                work *= 0.5                              # still a valid array of the same shape
+                ctx.count(("hist", "Softmax", it), True, "history/Softmax/edit_output+edit_input")
+                sm_call("jac", work, kind_="history: input array edited in place")
+                sm_call("fwd", work, kind_="history: input array edited in place")
+        if it % 25 == 0:
+            # more than two dimensions: rejected before anything else
+            ctx.count(("nd", it), True, "glue/Softmax/3-D")
+            sm_call("jac", arr.reshape((1,) + arr.shape), nd="[3]", kind_="3-D")
+            sm_call("fwd", arr.reshape((1, 1) + arr.shape), nd="[4]", kind_="4-D")
         valid = all(v > 0 for r in rows for v in r) and all(math.fsum(r) <= 1 - EPS - 1e-13 for r in rows)
         if valid and status != "ok":
             ctx.finding("Softmax/jac/rejects_valid", "a 2-D array with positive rows summing below 1-EPS was rejected",
@@ -691,16 +903,18 @@ def body(ctx):
     for req, (status, payload, case, bcexp), rep in zip(reqs, checks, replies):
         toks = rep.split()
         cls = case["class"]
+        op = case["op"]
+        meth = "jacobian" if op == "jac" else "forward"
         if status == "err":
             impl = "err " + payload
-            ctx.count((req,), False, f"{cls}/jac/err:{payload}")
+            ctx.count((req,), False, f"{cls}/{op}/err:{payload}")
             if rep != impl:
-                ctx.disagree(f"{cls}.jacobian: implementation and model differ (error handling)",
+                ctx.disagree(f"{cls}.{op}: implementation and model differ (error handling)",
                              {"request": case, "impl": impl, "model": rep})
             continue
         if toks[0] != "ok" or len(toks) != 4:
-            ctx.count((req,), False, f"{cls}/jac/model:{rep[:20]}")
-            ctx.disagree(f"{cls}.jacobian: implementation returned values, model replied {rep[:60]}",
+            ctx.count((req,), False, f"{cls}/{op}/model:{rep[:20]}")
+            ctx.disagree(f"{cls}.{meth}: implementation returned values, model replied {rep[:60]}",
                          {"request": case, "impl": "ok", "model": rep})
             continue
         if bcexp is not None:
@@ -708,7 +922,7 @@ def body(ctx):
             stt = C.parse_flist(toks[1])
             pcur = case["params"]
             if [C.f2h(v) for v in stt] != [C.f2h(pcur["nu"]), C.f2h(pcur["lam"])]:
-                ctx.disagree(f"{cls}.jacobian: inner BoxCox2 state of the model differs from the object's parameters",
+                ctx.disagree(f"{cls}.{meth}: inner BoxCox2 state of the model differs from the object's parameters",
                              {"request": case, "impl": [pcur["nu"], pcur["lam"]], "model": stt})
         if cls == "Softmax":
             mv = [C.h2f(t) for rw in toks[2].strip("[]").split(";") for t in rw.split(",") if t]
@@ -717,7 +931,7 @@ def body(ctx):
             mv, me = C.parse_flist(toks[2]), C.parse_flist(toks[3])
         iv = [float(v) for v in np.asarray(payload).ravel()]
         if len(iv) != len(mv):
-            ctx.disagree(f"{cls}.jacobian: result shapes differ", {"request": case, "impl": len(iv), "model": len(mv)})
+            ctx.disagree(f"{cls}.{meth}: result shapes differ", {"request": case, "impl": len(iv), "model": len(mv)})
             continue
         bad = None
         pb = G.param_branch(cls, case["params"]) if "params" in case else ""
@@ -725,13 +939,13 @@ def body(ctx):
         for k, (a, m, e) in enumerate(zip(iv, mv, me)):
             stats["elements"] += 1
             nontriv = fin(a)
-            dom = G.in_domain(cls, "jac", case["params"], ins[k]) if ins is not None else True
+            dom = G.in_domain(cls, op, case["params"], ins[k]) if ins is not None else True
             if dom is False:
                 stats["outside_domain_not_compared"] += 1
-                ctx.count((req, k), False, f"{cls}/jac/outside-domain")
+                ctx.count((req, k), False, f"{cls}/{op}/outside-domain")
                 continue
-            ctx.count((req, k), nontriv, f"{cls}/jac" + (f"/{pb}" if pb else "") + ("" if nontriv else "/nan-or-inf"),
-                      sample=({"class": cls, "op": "jac", "params": case.get("params"),
+            ctx.count((req, k), nontriv, f"{cls}/{op}" + (f"/{pb}" if pb else "") + ("" if nontriv else "/nan-or-inf"),
+                      sample=({"class": cls, "op": op, "params": case.get("params"),
                                "input": ins[k] if ins is not None else case.get("rows"),
                                "impl": a, "model": m, "bound": e} if (k == 3 and nontriv) else None))
             if a != a or m != m:
@@ -758,7 +972,7 @@ def body(ctx):
             break
         if bad is not None:
             k, a, m, e = bad
-            ctx.disagree(f"{cls}.jacobian: implementation and model differ beyond the condition-scaled tolerance",
+            ctx.disagree(f"{cls}.{meth}: implementation and model differ beyond the condition-scaled tolerance",
                          {"request": {**case, "element": k}, "impl": a, "model": m, "bound": e})
 
     # ---------------- correspondence: Softmax matrix of partial derivatives (model) vs finite differences (code)
